@@ -118,6 +118,10 @@ fn main() {
             }
             std::process::exit(harness::check(p, tier, seed));
         }
+        "child-read" => {
+            let g = |n: &str| arg(&args, n).unwrap_or_default();
+            std::process::exit(props::c38::child_read(&g("--fmt"), &g("--file"), &g("--settings")));
+        }
         "replay-child" => {
             let path = arg(&args, "--replay").expect("--replay");
             std::process::exit(harness::replay(p, &path));
